@@ -3,6 +3,7 @@
 
   c19_buffers.py export            memoryview() of every *Array class (dense lengths 0..4, read-only, masked,
                                    strided component arrays): nbytes, itemsize, format, ndim, shape, strides, readonly
+  c19_buffers.py export-ro <cls>   memoryview() of a read-only array (own process: may abort)
   c19_buffers.py from safe         every *ArrayFromBuffer function x array.array typecodes x lengths, only the
                                    combinations where the copy cannot overrun the new allocation
   c19_buffers.py from one <func> <typecode> <n> [<rows> <cols>]
@@ -41,16 +42,18 @@ def export():
         rec = {"supported": True, "dense": {}, "strided": {}}
         for k in range(5):
             rec["dense"][str(k)] = tr(lambda: mvinfo(memoryview(c(k))))
-        ro = c(3)
-        if hasattr(ro, "makeReadOnly"):
-            ro.makeReadOnly()
-            rec["readonly"] = tr(lambda: mvinfo(memoryview(ro)))
+        if hasattr(a0, "makeReadOnly"):
             m = imath.IntArray(3)
             m[0] = 1
             rec["masked"] = tr(lambda: mvinfo(memoryview(c(3)[m])))
         # strided views: component arrays of the vector arrays
         for comp in ("x", "y", "z", "w", "r", "g", "b", "a"):
-            if hasattr(a0, comp):
+            try:
+                has = hasattr(a0, comp)
+            except TypeError as e:      # e.g. V2i64Array.x: FixedArray<long> has no Python class
+                rec["strided"][comp] = {"error": "TypeError: " + str(e)[:100]}
+                continue
+            if has:
                 def f():
                     v = getattr(c(4), comp)
                     return dict(mvinfo(memoryview(v)), cls=type(v).__name__, len=len(v))
@@ -130,6 +133,13 @@ def cases(func):
 def main():
     if sys.argv[1] == "export":
         export()
+    elif sys.argv[1] == "export-ro":
+        # memoryview of a READ-ONLY array; separate process: an exception escaping the C getbuffer slot aborts
+        import imath
+        c = getattr(imath, sys.argv[2])
+        a = c(3)
+        a.makeReadOnly()
+        json.dump(tr(lambda: mvinfo(memoryview(a))), sys.stdout)
     elif sys.argv[1] == "from" and sys.argv[2] == "safe":
         res, unsafe = [], []
         for func in from_funcs():
